@@ -679,7 +679,13 @@ class Renderer:
         for x in sel:
             if isinstance(x, str):
                 if x == ' ':
-                    out.append(self.req() if not self.s['comments'] else (' ' + ('/*d*/ ' if self.r.random() < 0.2 else '')))
+                    if not self.s['comments']:
+                        out.append(self.req())
+                    else:
+                        # a comment beside the blank: followed by more blank ('a /*d*/ b') or glued to what comes next ('a /*g*/b'), glued
+                        # to what came before ('a/*h*/ b') - always one descendant combinator
+                        k = self.r.random()
+                        out.append(' /*d*/ ' if k < 0.15 else ' /*g*/' if k < 0.25 else '/*h*/ ' if k < 0.32 else ' ')
                 else:
                     sp = self.r.choice(['', ' ']) if self.s['ws'] != 'normal' else ' '
                     if self.s['ws'] == 'min':
